@@ -47,8 +47,8 @@ PROPS = {
               ["Zap.C02_stored", "Zap.C02_beyond", "Zap.C02_stop", "Zap.C02_docID", "Zap.C02_docID_id", "Zap.C02_count",
                "Zap.C02_docNumbers_full", "Zap.C02_docNumbers_full_spec", "Zap.C02_maxkey_shortcut_sound", "Zap.C01_fieldTable"],
               STORED_FILES + ["ZapProofs/Props/C02Full.lean", "ZapProofs/ComposeLemmas.lean"]),
-    "C03": _p([{"gen": "C03"}], ["ZapProofs.Props.C03", "ZapProofs.Props.C03Full", "ZapProofs.Props.Codec"],
-              ["Zap.C03_fresh_visit", "Zap.C03_visit_any_order", "Zap.C03_visit_sequence", "Zap.C03_reader_invariant",
+    "C03": _p([{"gen": "C03"}], ["ZapProofs.Props.C03", "ZapProofs.Props.C03Full", "ZapProofs.Props.Codec", "ZapProofs.Props.ReadWindows"],
+              ["Zap.ReadWindows.windows_full_width", "Zap.ReadWindows.windows_recognised", "Zap.C03_fresh_visit", "Zap.C03_visit_any_order", "Zap.C03_visit_sequence", "Zap.C03_reader_invariant",
                "Zap.C03_dvFieldNames", "Zap.C03_content_full", "Zap.C03_visit_built_full", "Zap.Props.Codec.content_roundtrip"],
               DV_FILES + STORED_FILES + ["ZapProofs/Props/C03Full.lean", "ZapProofs/CodecLemmasContent.lean"]),
     "C04": _p([{"gen": "C04"}, {"gen": "C04", "vectors": True, "seed_offset": 13}],
